@@ -7,6 +7,14 @@ ids = [p["id"] for p in props]
 
 # id -> (technique, level text, level note, design ref)
 CLAIMED = {
+ "C01": ("seeded structure-aware mutation fuzzing of corpus and generated documents in isolated worker processes, driven by proptest (shrinkable mutation lists); oracle = every call of the deep walk returns, no panic/abort, bounded allocation",
+         "Generated-input search: each input (corpus file, corpus mutant with 1-8 stacked token- and byte-level mutations, generated typed document with damage inside object bodies applied before layout so the file still loads, raw bytes) is walked deeply (pages, resources, fonts, images, forms, content, trees, outlines, fields, every object number, recovery scan) in strict/tolerant x cached/uncached, each walk in a worker process with a counting allocator; panics are collected per call, a dead worker or a confirmed time-out pins the input, allocation is checked against T <= 256MiB + 4000(n+d), P <= 128MiB + 400(n+d). About half of the inputs reach typed loading (see evidence labels).",
+         "absence of hangs is judged by a 40 s budget confirmed at 160 s; the walk is what engine/walker.rs reads; a search cannot cover all byte strings",
+         "DESIGN.md §4 C01"),
+ "C14": ("bounded exhaustive enumeration: every reference slot of 7 typed schema fragments pointed at every object, every numeric slot set to each boundary value, plus structural cases and proptest-generated multi-slot combinations; same isolated-walk oracle as C01",
+         "Fault enumeration over syntactically valid files: about 7 600 single-slot substitutions (quick runs a seed-rotated third, thorough all), /Prev loops, hostile xref-stream and object-stream parameters, nesting to 10 000 levels, and random 2-5 slot combinations; each file is walked in a worker process in four configurations and must neither panic, die, time out nor allocate out of proportion.",
+         "fragments and boundary values are listed in harness/src/props/c14.rs; fields not present in a fragment are not attacked",
+         "DESIGN.md §4 C14"),
  "C12": ("bounded exhaustive enumeration of call orderings per object + proptest-generated call sequences; differential oracle across the four cache configurations and against each call issued alone",
          "Generated-input search: for each surveyed object of corpus and generated files, orderings of up to 5 distinct call kinds (right and wrong typed loads, resolve, Stream::data, raw_image_data, image_data) and random sequences of up to 12 calls across objects and pages are executed on documents opened with both / object-only / stream-only / no caches; every call must give the same digest or root-cause error kind in all four and when issued alone.",
          "digests are hashes of canonical values; error kinds compared with wrappers peeled; SyncCache is the library's own cache type",
